@@ -24,6 +24,47 @@ SPEC = PropertySpec(
 )
 
 
+def _canonical_extend(fn):
+    """Class._extend with the two operands spelled out: `for k, v in X.classes.items()` is `for k in X.classes.keys()` with v = X.classes[k],
+    and a local bound once to `self.classes[k]` / `X.classes[k]` that is read before the next store into that mapping is that expression."""
+    import copy
+    fn = copy.deepcopy(fn)
+
+    def subst(root, name, expr_src, first_line, last_line):
+        class T(ast.NodeTransformer):
+            def visit_Name(self, n):
+                if n.id == name and isinstance(n.ctx, ast.Load) and first_line <= n.lineno <= last_line:
+                    return ast.copy_location(ast.parse(expr_src, mode="eval").body, n)
+                return n
+        return T().visit(root)
+
+    for lp in [x for x in ast.walk(fn) if isinstance(x, ast.For)]:
+        it = lp.iter
+        if isinstance(lp.target, ast.Tuple) and len(lp.target.elts) == 2 and all(isinstance(e, ast.Name) for e in lp.target.elts) \
+                and isinstance(it, ast.Call) and isinstance(it.func, ast.Attribute) and it.func.attr == "items" and norm(it.func.value).endswith(".classes") and not it.args:
+            k, v = lp.target.elts[0].id, lp.target.elts[1].id
+            rebound = [x for x in ast.walk(lp) if isinstance(x, ast.Name) and x.id in (k, v) and isinstance(x.ctx, ast.Store) and x not in lp.target.elts]
+            if rebound:
+                continue
+            m = norm(it.func.value)
+            for i, b in enumerate(lp.body):
+                lp.body[i] = subst(b, v, "%s[%s]" % (m, k), 0, 10 ** 9)
+            lp.target = ast.copy_location(ast.Name(id=k, ctx=ast.Store()), lp.target)
+            it.func.attr = "keys"
+    stores = {}
+    for x in ast.walk(fn):
+        if isinstance(x, ast.Name) and isinstance(x.ctx, ast.Store):
+            stores[x.id] = stores.get(x.id, 0) + 1
+    map_stores = sorted(x.lineno for x in ast.walk(fn) if isinstance(x, ast.Subscript) and isinstance(x.ctx, ast.Store) and norm(x.value).endswith(".classes"))
+    for st in [x for x in ast.walk(fn) if isinstance(x, ast.Assign)]:
+        if len(st.targets) == 1 and isinstance(st.targets[0], ast.Name) and stores.get(st.targets[0].id) == 1 and isinstance(st.value, ast.Subscript) \
+                and norm(st.value.value).endswith(".classes"):
+            nxt = [ln for ln in map_stores if ln > st.lineno]
+            subst(fn, st.targets[0].id, norm(st.value), st.lineno + 1, nxt[0] if nxt else 10 ** 9)
+    ast.fix_missing_locations(fn)
+    return fn
+
+
 @SPEC.rule(
     "R27.1",
     "merge reads both sides: for a class name present in both trees Class._extend either merges the content fields of "
@@ -33,7 +74,7 @@ SPEC = PropertySpec(
 def r27_1(ctx, rep):
     R = "R27.1"
     from ..pyutil import renamed_copy
-    fn = ctx.func(AST, "Class._extend", R)
+    fn = _canonical_extend(ctx.func(AST, "Class._extend", R))
     roles = {}
     for lp in fn.body:
         if isinstance(lp, ast.For) and isinstance(lp.target, ast.Name) and ".classes" in norm(lp.iter):
